@@ -368,7 +368,7 @@ theorem sum_none_iff (l : List Posting) (m : Sums) :
     unfold sumByCommodity
     cases hc : contribution p with
     | none =>
-      simp only [hc, List.mem_cons, exists_eq_or_imp]
+      simp only [List.mem_cons, exists_eq_or_imp]
       rw [ih]
       have : ¬ mulOverflow p := fun h => by
         have := (contribution_panic_iff p).2 h
@@ -377,11 +377,11 @@ theorem sum_none_iff (l : List Posting) (m : Sums) :
     | some o =>
       cases o with
       | none =>
-        simp only [hc, List.mem_cons, exists_eq_or_imp, true_iff]
+        simp only [List.mem_cons, exists_eq_or_imp, true_iff]
         exact Or.inl ((contribution_panic_iff p).1 hc)
       | some kq =>
         obtain ⟨k, q⟩ := kq
-        simp only [hc, List.mem_cons, exists_eq_or_imp]
+        simp only [List.mem_cons, exists_eq_or_imp]
         rw [ih]
         have : ¬ mulOverflow p := fun h => by
           have := (contribution_panic_iff p).2 h
